@@ -93,7 +93,7 @@ def make (c):
     marks = [np.array (x ['at']) for x in spec ['src'] + spec ['loads'] if 'at' in x]
     rng2  = np.random.default_rng ([c ['seed'], 55, c ['i']])
     for g in spec ['geo']:
-        if g ['k'] == 'w' and g ['n'] >= 3 and rng2.random () < 0.4:
+        if g ['k'] == 'w' and g ['n'] >= 3 and rng2.random () < (0.75 if spec ['motion']['sc'] else 0.3):
             p1, p2 = np.array (g ['p1']), np.array (g ['p2'])
             on = any (np.linalg.norm (np.cross (p2 - p1, x - p1)) < 1e-9 * np.linalg.norm (p2 - p1) ** 2 and -1e-9 <= (x - p1) @ (p2 - p1) / ((p2 - p1) @ (p2 - p1)) <= 1 + 1e-9 for x in marks)
             if not on:
